@@ -21,12 +21,7 @@ Check C06_ir_unary_refuted :
   exists ts, known_unary_mul ts = true /\
              parse tbl_ir ts = Ok (EUn UBitNot (EBin Mul (EAtom 0) (EAtom 1))) /\
              parse tbl_ref ts = Ok (EBin Mul (EUn UBitNot (EAtom 0)) (EAtom 1)).
-Check C06_peg_matches_grammar_outside_known :
-  forall ts, known_xor_chain ts = false -> parse tbl_peg ts = parse tbl_ref ts.
-Check C06_peg_xor_refuted :
-  exists ts, known_xor_chain ts = true /\
-             parse tbl_peg ts = Ok (EBin BitXor (EAtom 0) (EBin BitXor (EAtom 1) (EAtom 2))) /\
-             parse tbl_ref ts = Ok (EBin BitXor (EBin BitXor (EAtom 0) (EAtom 1)) (EAtom 2)).
+Check C06_peg_matches_grammar : forall ts, parse tbl_peg ts = parse tbl_ref ts.
 Check C06_rowan_matches_grammar_outside_known :
   forall ts, known_rowan ts = false -> parse tbl_rowan ts = parse tbl_ref ts.
 Check C06_rowan_uplus_refuted :
@@ -37,9 +32,7 @@ Check C06_rowan_same_as_ir_outside_unary_plus :
 Check C06_ir_roundtrip_outside_known :
   forall p, wf p = true -> known_unary_mul (flatten p) = false ->
     parse tbl_ir (flatten p) = Ok (erase p).
-Check C06_peg_roundtrip_outside_known :
-  forall p, wf p = true -> known_xor_chain (flatten p) = false ->
-    parse tbl_peg (flatten p) = Ok (erase p).
+Check C06_peg_roundtrip : forall p, wf p = true -> parse tbl_peg (flatten p) = Ok (erase p).
 
 (** the definitions the statements rest on, pinned by evaluation *)
 (* the grammar's levels (Jsonnet specification), loosest to tightest *)
@@ -63,8 +56,8 @@ Check eq_refl : render (EBin Mul (EBin Add (EAtom 0) (EAtom 1)) (EUn UNot (EBin 
 Check eq_refl : known_unary_mul [TOp Sub; TAtom 0; TOp Mul; TAtom 1] = true.
 Check eq_refl : known_unary_mul [TAtom 0; TOp Sub; TAtom 1; TOp Mul; TAtom 2] = false.
 Check eq_refl : known_unary_mul [TAtom 0; TOp Mul; TOp Sub; TAtom 1; TOp Add; TAtom 2] = false.
-Check eq_refl : known_xor_chain [TAtom 0; TOp BitXor; TAtom 1; TOp BitAnd; TAtom 2] = false.
-Check eq_refl : known_xor_chain [TAtom 0; TOp BitXor; TAtom 1; TOp BitXor; TAtom 2] = true.
+Check eq_refl : parse tbl_peg [TAtom 0; TOp BitXor; TAtom 1; TOp BitXor; TAtom 2]
+                = Ok (EBin BitXor (EBin BitXor (EAtom 0) (EAtom 1)) (EAtom 2)).
 Check eq_refl : known_rowan [TAtom 0; TOp Add; TAtom 1] = false.
 Check eq_refl : known_rowan [TAtom 0; TOp Add; TOp Add; TAtom 1] = true.
 Check eq_refl : parse tbl_ref [TAtom 0; TOp Add] = Err.
